@@ -25,6 +25,7 @@ Fixpoint qassoc {B} (q : Q) (l : list (Q * B)) : option B :=
   match l with [] => None | (k, v) :: r => if Qeq_bool q k then Some v else qassoc q r end.
 
 Definition nonzero (z : Z) : bool := negb (z =? 0).
+Definition is_rest_or_cont (k : kind) : bool := match k with KR | KL => true | _ => false end.
 
 (* Note.to_code *)
 Definition note_text (n : fnote) : ntext :=
@@ -44,6 +45,7 @@ Definition note_text (n : fnote) : ntext :=
      (if isx && nonzero (fo n) then [TO (fo n)] else []) ++
      dur ++
      (if isn && nonzero (fo n) then [if dir_eqb (fd n) Abs then TO (fo n) else TOabs (fo n)] else []) ++
+     (if is_rest_or_cont (fk n) && nonzero (fo n) then [TOabs (fo n)] else []) ++    (* r.oabs(k), l.oabs(k) *)
      (if isn then match fmode n with Some m => [TMode m] | None => [] end else []) ++
      (if isn then match facc n with Some a => [TAcc a] | None => [] end else []) ++
      amp ++
